@@ -774,7 +774,7 @@ func main() {
 		w.Close(o, "C03: replay", nil)
 		return
 	}
-	tr.Main("C03: every tree shape with up to 4 (quick) / 5 (thorough) nodes x every start (each key, absent keys, Root, nil, empty) x every sequence of up to 2 (3) of the seven moves, with a clone taken first and re-read after every move; trees built by Add/Replace/Remove/Clear/New histories (ascending and descending vines, zig-zags, churn with delete-side rebuilds, bulk New, random mixes) at β in {0,1,250,500,999,1000,random} under natural, reversed and modular comparators, and from each of them random walks (from random keys and, for trees up to 16 keys, from every key) over all moves, re-anchoring, clones in up to 4 registers, Inorder (full and stopped early) and full Next/Prev sweeps from every key. Round 3: histories that grow a tree by 16-90 Adds at beta < 1000 and then remove keys (shallowest first by real depth, keeping the deepest root-to-leaf paths, from one end, ...) down to 1/2, 1/4, 1/8, with Cursor/Get/Next/Prev/Up/Min/Max/Inorder from every remaining key; compound walks (several moves, HasNext/HasPrev/Valid/Key calls among them, with nothing else observed in between): every 3-move sequence from every start of every small shape, random ones from every key of the history-built trees and inside the random walks; and big trees (B lines): beta in {0,1,50,250,500,800,999} x growth order (ascending, descending, outside-in, random; thorough also inside-out and ideal breadth-first) x removal order (low end, high end, outside-in, inside-out, ideal breadth-first and its reverse, random, evenly spaced survivors, shallowest/deepest first by real depth, keeping the deepest paths) with sizes 2^k-1, 2^k, 2^k+1 for k = 8..12 (thorough ..13; 100-400 at beta 999 where the tree is a vine), shrunk in stages to 1/2, 1/4, 1/8, 1/16 (1/32, 1/64 at beta <= 100) of the peak and regrown, after every stage from EVERY key: Tree.Cursor valid at the key, Get, flags, real path, Next and Prev steps, a Next/Prev zig-zag, Up to the root, Min, Max, Inorder of the subtree, Cursor of the absent neighbour, and full Min..Next and Max..Prev sweeps, folded into digests (key lists beyond 200 keys too) so that a line stays a few kB, plus explicit walks with clones from the deepest key, from a key whose path slice is exactly full (2^k nodes) and from a random key. The B lines carry no shape: the replay rebuilds the tree with the C01 tree model. The real shape and every cursor's real path are read from the node pointers by a hook. A case is non-trivial when the tree has at least two nodes and at least one cursor operation; distinct = distinct input lines.",
+	tr.Main("C03: every tree shape with up to 4 (quick) / 5 (thorough) nodes x every start (each key, absent keys, Root, nil, empty) x every sequence of up to 2 (3) of the seven moves, with a clone taken first and re-read after every move; trees built by Add/Replace/Remove/Clear/New histories (ascending and descending vines, zig-zags, churn with delete-side rebuilds, bulk New, random mixes) at β in {0,1,250,500,999,1000,random} under natural, reversed and modular comparators, and from each of them random walks (from random keys and, for trees up to 16 keys, from every key) over all moves, re-anchoring, clones in up to 4 registers, Inorder (full and stopped early) and full Next/Prev sweeps from every key. Round 3: histories that grow a tree by 16-90 Adds at beta < 1000 and then remove keys (shallowest first by real depth, keeping the deepest root-to-leaf paths, from one end, ...) down to 1/2, 1/4, 1/8, with Cursor/Get/Next/Prev/Up/Min/Max/Inorder from every remaining key; compound walks (several moves, HasNext/HasPrev/Valid/Key calls among them, with nothing else observed in between): every 3-move sequence from every start of every small shape, random ones from every key of the history-built trees and inside the random walks; and big trees (B lines): beta in {0,1,50,250,500,800,999} x growth order (ascending, descending, outside-in, random; thorough also inside-out and ideal breadth-first) x removal order (low end, high end, outside-in, inside-out, ideal breadth-first and its reverse, random, evenly spaced survivors, shallowest/deepest first by real depth, keeping the deepest paths) with sizes 2^k-1, 2^k, 2^k+1 for k = 8..12 (thorough ..13; 100-400 at beta 999 where the tree is a vine), shrunk in stages to 1/2, 1/4, 1/8, 1/16 (1/32, 1/64 at beta <= 100) of the peak and regrown, after every stage from EVERY key: Tree.Cursor valid at the key, Get, flags, real path, Next and Prev steps, a Next/Prev zig-zag, Up to the root, Min, Max, Inorder of the subtree, Cursor of the absent neighbour, and full Min..Next and Max..Prev sweeps, folded into digests (key lists beyond 200 keys too) so that a line stays a few kB, plus explicit walks with clones from the deepest key, from a key whose path slice is exactly full (2^k nodes) and from a random key. The B lines carry no shape: the replay rebuilds the tree with the C01 tree model. Round 4 (tree sessions, B lines over up to three trees): setter; barrier; consumer - setter = InorderAfter complete and broken off after every number of keys from every key and every absent neighbour, Tree.Inorder and Cursor.Inorder broken off at every position, the same with a loop body that panics (recovered), Get/Cursor/InorderAfter under a comparator that panics at its n-th call, Get, Min, Max, Len, Tree.Cursor, Root, cursors moved and left behind, a probe; barrier = nothing, an edit in place (Add of a neighbour, Remove of the key / its neighbours / an end, Replace by the same or an equivalent key, Add of a present key, Remove then Add back, Clear, Clear or key-by-key drain and the same keys again), or Clone and then the original or the clone edited, or a clone of a clone; consumer = on the other tree (and then on the edited one) Tree.Cursor of the key and its neighbours with full Next/Prev walks, Inorder, compound walks, Get, InorderAfter, Inorder, Min, Max, Len, Root and the probe of every key; cursors of one tree kept in their registers while the other tree is edited; every tree size 0..600 (grow, probe, shrink to exactly the size at which Remove does not yet rebuild, probe, one more Remove, Clear or drain, regrow). A case that does not return (a walk over a cycle among the nodes) is reported as hang by a watchdog and ends the run. The real shape and every cursor's real path are read from the node pointers by a hook. A case is non-trivial when the tree has at least two nodes and at least one cursor operation; distinct = distinct input lines.",
 		exec, func(g *tr.G) {
 			theG, theRule = g, "C03: see the generator (ended early after a case that did not return)"
 			x := &gen{g: g}
